@@ -54,6 +54,7 @@ def run_history(h, mode):
     tn, td = h['tempo']
     nchild = [0]
     finished = [0]
+    the_clock = [None]
 
     def log(clock, op, a, k, r):
         events.append({'op': op, 'a': a, 'k': k, 'r': r, 'obs': observe(clock, main)})
@@ -69,7 +70,10 @@ def run_history(h, mode):
         """perform one non-yielding op; returns (fixed-point args, results)"""
         if op == 'tempo':
             clock.tempo = a[0] / a[1]
-            return [a[0], a[1]], [fx(clock.tempo), fx(clock.beat_dur)]
+            return [a[0], a[1], 0], [fx(clock.tempo), fx(clock.beat_dur)]
+        if op == 'etempo':      # set at the current elapsed time, which in NRT is the logical time
+            clock.etempo(a[0] / a[1])
+            return [a[0], a[1], 1], [fx(clock.tempo), fx(clock.beat_dur)]
         if op == 'beats':
             clock.beats = e8(a[0])
             return [se8(a[0])], []
@@ -129,7 +133,7 @@ def run_history(h, mode):
                     continue
                 try:
                     fa, r = do(clock, op, a)
-                    log(clock, op if op != 'playq' else 'play', fa, 'ok', r)
+                    log(clock, {'playq': 'play', 'etempo': 'tempo'}.get(op, op), fa, 'ok', r)
                 except Exception as ex:     # recorded, judged by the spec
                     log(clock, op, [0, 0, 0, 0], 'exc:' + type(ex).__name__, [])
             finished[0] = 1
@@ -138,13 +142,16 @@ def run_history(h, mode):
     def drv():
         yield e8(h['start'])
         clock = TempoClock(tn / td, e8(h['beats0']) if h['beats0'] else None)
+        the_clock[0] = clock
         log(clock, 'new', [tn, td, se8(h['beats0']), se8(h['start'])], 'ok', [])
         Routine(body_func(h['ops'])).play(clock, 0)
 
     Routine(drv).play()
     main.process()
     zero = [0, 1]
-    events.append({'op': 'end', 'a': [finished[0]], 'k': 'ok', 'r': [],
+    # seen from the main thread (outside any routine) the clock maps that thread's logical time
+    events.append({'op': 'end', 'a': [finished[0]], 'k': 'ok',
+                   'r': [fx(the_clock[0].beats), fx(main.main_tt._m_seconds), fx(the_clock[0].elapsed_beats())],
                    'obs': {'b': zero, 's': zero, 'bbar': zero, 'bbb': zero, 'bpb': 0}})
     return events
 
